@@ -22,12 +22,15 @@ RULE = (
     "generated WCS (5 projections, scale 1e-4..0.3 deg/px, rotation, skew, both parities, centre anywhere incl. RA~0, |dec|<=80); "
     "probe tiles are AIMED at the footprint's extremes: the four pixel-edge lines are sampled at 40 points per pixel, the boundary "
     "point of max/min latitude or max/min unwrapped longitude (or a ring / random point) is moved inward by 0.01-0.45 image pixels "
-    "and the TOAST tile containing it at a depth where TOAST-pixel/image-pixel is in [1/1024, 4] is taken. (chunk) "
+    "and the TOAST tile containing it at a depth where TOAST-pixel/image-pixel is in [1/1024, 4] is taken; polar images put a "
+    "celestial pole on or anywhere inside a chosen pixel (first / last row or column included) and are probed down to 1/16384. (chunk) "
     "ChunkedPlateCarreeSampler over a harness chunked image with a generated chunk grid (ragged last chunks). Direct oracle: if "
     "any RefToast pixel centre of the tile lies inside the box / inside the image by >= 0.05 px / inside the chunk, the filter "
     "must return True for the tile AND for every ancestor from level 1 (the pruned descent must reach it); the tile object is "
     "unchanged by the call. End-to-end oracle: sample_layer_filtered == sample_layer pixel for pixel (missing tile = all "
-    "undefined) at depth <=3; sampling all chunks one after another == whole-map sampling up to the either-neighbour rule on "
+    "undefined) at depth <=3; tile_fits in TOAST mode of a collection of 1-3 FITS images (one footprint filter per image, their "
+    "union for the downsampling) == the same samplers and the same downsampling applied to every tile without any filter, for "
+    "every tile of every level (base level 2..4); sampling all chunks one after another == whole-map sampling up to the either-neighbour rule on "
     "cell boundaries, every pixel defined. Non-trivial: the tile has pixel centres both inside and outside, or lies in the outer "
     "pixel ring of the image."
 )
@@ -274,6 +277,7 @@ def image_cases(draw, tier, max_scale_log=-0.52):
 def strat_image(draw, tier):
     case = draw(image_cases(tier))
     polar = draw(st.integers(0, 7)) == 0
+    deep = False
     if polar:
         # an image with a celestial pole well inside it (latitude extreme in the interior, all longitudes)
         case["size"] = [draw(st.integers(20, 120)), draw(st.integers(20, 120))]
@@ -288,10 +292,18 @@ def strat_image(draw, tier):
             case["wcs"]["crpix_mode"] = "inside"
             case["wcs"]["crpix_u"] = draw(st.sampled_from([0.0, 1.0, 0.5, 0.013, 0.987]))
             case["wcs"]["crpix_v"] = draw(st.sampled_from([0.0, 1.0, 0.5, 0.013, 0.987]))
+            if draw(st.booleans()):
+                # ... or anywhere inside a pixel of the first / last column or row (FITS pixel coordinate 0.5+f, N-0.5+f)
+                for key, N in (("crpix_u", case["size"][0]), ("crpix_v", case["size"][1])):
+                    cell = draw(st.sampled_from(["first", "last", "any"]))
+                    f = draw(st.floats(0.05, 0.95))
+                    c = {"first": 0.5 + f, "last": N - 0.5 + f, "any": 0.5 + f + draw(st.integers(0, N - 1))}[cell]
+                    case["wcs"][key] = (c - 1) / (N - 1)
+            deep = True
     probes = []
     for _ in range(draw(st.integers(2, 6))):
         kind = draw(st.sampled_from(["pole", "pole", "interior", "ring"] if polar else ["latmax", "latmin", "lonmax", "lonmin", "latmax", "latmin", "lonmax", "lonmin", "ring", "interior", "pole"]))
-        pr = {"kind": kind, "shift": draw(st.floats(0.01, 0.45)), "ratio": 2 ** draw(st.floats(-10, 2)), "frac": draw(st.floats(0, 1)), "frac2": draw(st.floats(0, 1))}
+        pr = {"kind": kind, "shift": draw(st.floats(0.01, 0.45)), "ratio": 2 ** draw(st.floats(-14 if deep else -10, 2)), "frac": draw(st.floats(0, 1)), "frac2": draw(st.floats(0, 1))}
         probes.append(pr)
     case["probes"] = probes
     return case
@@ -468,6 +480,105 @@ def strat_image_e2e(draw, tier):
     return case
 
 
+def exec_collection_e2e(case):
+    """FITS auto-tiling of a collection in TOAST mode (every image sampled under its own footprint filter, the downsampling
+    restricted to the union of the filters) against the same pipeline without any filter: every tile of every level"""
+    import toasty
+    from astropy.io import fits
+    from toasty import toast
+    from toasty.merge import averaging_merger, cascade_images
+    from toasty.pyramid import Pyramid, PyramidIO, Pos
+    from toasty.samplers import WcsSampler
+
+    start = case["start"]
+    old_env = os.environ.get("SLURM_NPROCS")
+    os.environ["SLURM_NPROCS"] = "1"
+    try:
+        with fresh_dir("c07c-") as d, warnings.catch_warnings():
+            warnings.simplefilter("ignore")
+            paths, arrays = [], []
+            for i, im in enumerate(case["images"]):
+                w, h = im["size"]
+                y, x = np.indices((h, w))
+                data = (((x * 7 + y * 3) % 50 + 1) * im["gain"] + im["offset"]).astype(np.float32)
+                wc = wcsgen.wcs_of(im["wcs"], w, h)
+                _px, _py, blon, blat = boundary_points(wc, w, h, per_pixel=4)
+                if not (np.isfinite(blon).all() and np.isfinite(blat).all()):
+                    return Outcome(classes=["collection-end-to-end", "footprint-leaves-projection-domain"], nontrivial=False)
+                pth = os.path.join(d, f"im{i}.fits")
+                fits.writeto(pth, data, header=wcsgen.header_of(im["wcs"], w, h))
+                paths.append(pth)
+            what = f"tile_fits TOAST of {len(paths)} images {[(im['size'], im['wcs']['ra'], im['wcs']['dec'], im['wcs']['scale']) for im in case['images']]}, start={start}"
+            out = os.path.join(d, "out")
+            with toasty_call("sampling", what):
+                toasty.tile_fits(paths, out_dir=out, parallel=1, tiling_method=toasty.TilingMethod.TOAST, start=start)
+            # the same without filters: every image sampled into every tile (merging), then an unfiltered cascade
+            ref = os.path.join(d, "ref")
+            pr = PyramidIO(ref, default_format="fits")
+            with toasty_call("sampling", "the unfiltered reference pipeline"):
+                from toasty.collection import SimpleFitsCollection
+
+                for image in SimpleFitsCollection(paths).images():
+                    ws = WcsSampler(data=image.asarray(), wcs=image.wcs)
+                    proc = toast.ToastSampler(pr, ws.sampler(), False, format="fits")
+                    Pyramid.new_toast(start).visit_leaves(proc.visit_callback, parallel=1)
+                cascade_images(pr, start, averaging_merger, parallel=1)
+            po = PyramidIO(out, default_format="fits")
+            ndef = 0
+            tiles_with_data = 0
+            for n in range(start, -1, -1):
+                for yy in range(2**n):
+                    for xx in range(2**n):
+                        pa = pr.tile_path(Pos(n, xx, yy), makedirs=False)
+                        if not os.path.exists(pa):
+                            continue
+                        with fits.open(pa) as hl:
+                            a = np.array(hl[0].data)
+                        fin = np.isfinite(a)
+                        if not fin.any():
+                            continue
+                        ndef += int(fin.sum())
+                        tiles_with_data += 1
+                        pf = po.tile_path(Pos(n, xx, yy), makedirs=False)
+                        if not os.path.exists(pf):
+                            raise Violation("holes", f"{what}: tile {(n, xx, yy)} holds {int(fin.sum())} defined pixels when no filter is used but was not produced")
+                        with fits.open(pf) as hl:
+                            f = np.array(hl[0].data)
+                        if not np.array_equal(f, a, equal_nan=True):
+                            miss = fin & ~np.isfinite(f)
+                            raise Violation("holes", f"{what}: tile {(n, xx, yy)} differs from the unfiltered pipeline; {int(miss.sum())} defined pixels are missing, {int((fin & np.isfinite(f) & (f != a)).sum())} have other values")
+    finally:
+        if old_env is None:
+            os.environ.pop("SLURM_NPROCS", None)
+        else:
+            os.environ["SLURM_NPROCS"] = old_env
+    cls = ["collection-end-to-end", f"images{len(case['images'])}", f"start{start}", "has-data" if ndef else "no-data"]
+    # images whose centres lie in different tiles one level above the base layer: the union of the filters matters
+    cells = set()
+    for im in case["images"]:
+        q = rt.locate(max(start - 1, 1), rt.lonlat_to_vec(math.radians(im["wcs"]["ra"]), math.radians(im["wcs"]["dec"])), False)
+        cells.add(tuple(q) if q is not None else None)
+    if len(cells) >= 2 and start >= 2:
+        cls.append("images-under-different-parents")
+    return Outcome(classes=cls,
+                   nontrivial=ndef > 0 and len(case["images"]) >= 2, info={"defined_pixels": ndef, "tiles_with_data": tiles_with_data})
+
+
+@st.composite
+def strat_collection_e2e(draw, tier):
+    imgs = []
+    for i in range(draw(st.sampled_from([1, 2, 2, 2, 3]))):
+        spec = draw(wcsgen.wcs_specs(projections=("TAN",), max_dec=80, min_scale_log=-1.0, max_scale_log=-0.5, allow_skew=False))
+        spec["ratio"] = 1.0
+        spec["crpix_mode"] = "half"
+        if imgs and draw(st.integers(0, 3)) == 0:
+            # overlapping the previous image
+            spec["ra"] = (imgs[-1]["wcs"]["ra"] + draw(st.floats(-3, 3))) % 360
+            spec["dec"] = max(-80.0, min(80.0, imgs[-1]["wcs"]["dec"] + draw(st.floats(-3, 3))))
+        imgs.append({"size": [draw(st.integers(8, 64)), draw(st.integers(8, 64))], "wcs": spec, "gain": draw(st.sampled_from([1.0, 0.01, 4.0])), "offset": draw(st.sampled_from([0.0, 100.0, -300.0]))})
+    return {"images": imgs, "start": draw(st.sampled_from([1, 2, 2, 3, 3, 4] if tier == "thorough" else [2, 3, 3]))}
+
+
 def exec_chunk_e2e(case):
     from toasty import toast, samplers
     from toasty.pyramid import PyramidIO
@@ -552,6 +663,8 @@ PARTS = [
          budget_s={"quick": 60, "thorough": 1200}, describe="chunk filters of generated chunk grids x probe tiles"),
     Part("image_end_to_end", exec_image_e2e, strategy=strat_image_e2e, examples={"quick": 32, "thorough": 1200}, shards={"quick": 16, "thorough": 16},
          budget_s={"quick": 75, "thorough": 1500}, shrink=False, describe="sample_layer_filtered vs sample_layer for image footprints"),
+    Part("collection_end_to_end", exec_collection_e2e, strategy=strat_collection_e2e, examples={"quick": 32, "thorough": 1200}, shards={"quick": 16, "thorough": 16},
+         budget_s={"quick": 70, "thorough": 1200}, describe="tile_fits (TOAST) of 1-3 FITS images, per-image footprint filters + union filter for the downsampling, against the same pipeline without filters; every tile of every level"),
     Part("chunk_end_to_end", exec_chunk_e2e, strategy=strat_chunk_e2e, examples={"quick": 48, "thorough": 2000}, shards={"quick": 16, "thorough": 16},
          budget_s={"quick": 75, "thorough": 1500}, shrink=False, describe="all chunks sampled one after another vs whole-map sampling"),
 ]
